@@ -50,6 +50,8 @@ def run(ctx):
     # vanish
     rem = storage.vanish_effects(ctx, s)
     vanish_filters(ctx, s)
+    vanish_both_passes(ctx, s)
+    tables.mirror(ctx, s)
     lifecycle.ephemeral_not_indexed(ctx, s)
     lifecycle.kind_classes(ctx, s)
     tables.removal_funnel(ctx, s)
@@ -110,3 +112,20 @@ def vanish_filters(ctx, s):
         ok = idv[0] == "call" and idv[1].endswith("::id") and contains_value(idv, lambda y: y[0] == "call" and y[1].endswith("::next"))
         s.add("S-REL", fn, "vanish-removes-results", "remove_event", info["sp"], PROVED if ok else VIOLATION,
               "removes the id of an event yielded by the query result" if ok else "removes something other than the queried events", b)
+
+
+def vanish_both_passes(ctx, s):
+    """every success path of vanish ran both queries (authored events and gift-wraps)"""
+    fn = ctx.fn("pocket_db::Store::vanish")
+    an = ctx.E.an(fn)
+    fe = s.calls(fn, names={"pocket_db::Store::find_events"})
+    oks = [n for n, k, v in s.return_kinds(fn) if k == "ok"]
+    ok = len(fe) >= 2 and bool(oks)
+    for b, info in fe:
+        good = s.ok_edges_of_call(fn, b)
+        reach = s.reach(fn, [an.cfg.entry], avoid=good)
+        if any(n in reach for n in oks):
+            ok = False
+    s.add("S-MUSTPASS", fn, "both-vanish-passes", "vanish", fn.sp, PROVED if ok else VIOLATION,
+          "Ok is returned only after both the authored-events query and the gift-wrap query ran" if ok else
+          "vanish can return Ok without having run both of its queries (e.g. an early return skips the gift-wrap pass)")
